@@ -47,10 +47,21 @@ def main():
         own = det[pid]
         rows.append((d, "DETECTED" if own["exit"] == 1 else "missed (exit %d)" % own["exit"], "; ".join("%s: %s" % (c, ",".join(v["violations"]) or "-") for c, v in det.items())))
         print(rows[-1], flush=True)
+    # RESULTS.md is rebuilt from every seed's meta.json (so partial runs keep the other rows)
     with open(os.path.join(VERIF, "seeded", "RESULTS.md"), "w") as f:
         f.write("# Seeded changes versus the registered quick checks\n\n| seed | own property check | violations reported |\n|---|---|---|\n")
-        for r in rows:
-            f.write("| %s | %s | %s |\n" % r)
+        for d in sorted(os.listdir(os.path.join(VERIF, "seeded"))):
+            mp = os.path.join(VERIF, "seeded", d, "meta.json")
+            if not re.match(r"^C\d+-[a-z]$", d) or not os.path.exists(mp):
+                continue
+            meta = json.load(open(mp))
+            det = meta.get("detected_by") or {}
+            own = det.get(d[:3])
+            if own is None:
+                f.write("| %s | not run | |\n" % d)
+                continue
+            f.write("| %s | %s | %s |\n" % (d, "DETECTED" if own["exit"] == 1 else "missed (exit %d)" % own["exit"],
+                                              "; ".join("%s: %s" % (c, ",".join(v["violations"]) or "-") for c, v in det.items())))
     print("done")
 
 if __name__ == "__main__":
